@@ -28,8 +28,16 @@ IMPLF = os.path.join(vlib.BUILD, "cgns_f" + vlib._TAG)
 FFLAGS = "-O1 -g -fno-omit-frame-pointer"
 DRV_FFLAGS = ["-O1", "-g", "-w", "-fno-omit-frame-pointer", "-ffree-line-length-none", "-fsanitize=address,undefined",
               "-fno-sanitize-recover=undefined"]
-DRV_SRC = ["c20f_drv.f90", "c20f_mll1.f90", "c20f_mll2.f90", "c20f_mll3.f90", "c20f_cgio.f90", "c20f_extra.f90", "c20f_main.f90"]
+DRV_SRC = ["c20f_drv.f90", "c20f_mll1.f90", "c20f_mll2.f90", "c20f_mll3.f90", "c20f_cgio.f90", "c20f_extra.f90", "c20f_dl2.f90",
+           "c20f_main.f90"]
 DL = [1, 8, 31, 32, 33, 40, 80]
+# declared lengths per argument of the dl2_* operations (harness/c20f_dl2.f90): all orderings of three distinct lengths
+TRIPLES = [(8, 32, 40), (8, 40, 32), (32, 8, 40), (32, 40, 8), (40, 8, 32), (40, 32, 8), (1, 33, 80), (80, 31, 1)]
+MIRROR = {1: 3, 2: 5, 3: 1, 4: 6, 5: 2, 6: 4, 7: 8, 8: 7}          # the triple with the first two lengths the other way round
+# node names / labels around the path terminators of cg_goto / cg_gorel ("end", "END", NULL, ""): prefixes, extensions,
+# other case, trailing / leading blanks, blank-only, empty
+TERM_FAMILY = [b"end", b"END", b"endwall", b"END2", b"en", b"End", b"end cap", b"ENDPLATE", b"e", b"endend", b"Wall", b"end ", b"END   ",
+               b"endwall  ", b"   ", b" ", b"", b" lead", b"enD"]
 CHECKER = ("make -C coq Ftoc.vo FtocAbi.vo FtocAbiProofs.vo Gen_C20f.vo (coqc 8.16.1 kernel, vm_compute on the regenerated "
            "interface table) ; coqc Properties_C20f.v (Print Assumptions)")
 ORACLE = ("Fortran program (gfortran-12, use cgns) == C harness in wrapper mode == C harness in direct mode: status, outputs, "
@@ -187,8 +195,7 @@ def to_c_line(l):
     if o == "dl_io_create":
         return "io_create %s %s" % (t[1], hx(fassign(unhex(t[3]), int(t[2]))))
     if o == "dl_goto":
-        lab = fassign(unhex(t[3]), int(t[2])).rstrip(b" ").decode()
-        return "goto %s %s %s" % (t[1], lab or "end", t[4])
+        return "gotov %s 1 %s %s" % (t[1], hx(fassign(unhex(t[3]), int(t[2]))), t[4])
     if o == "dl_sol_info":
         return "sol_info %s %s %s %s" % (t[1], t[2], t[3], t[4])
     if o == "dl_section_read":
@@ -203,6 +210,35 @@ def to_c_line(l):
         return "descriptor_read %s %s 80" % (t[1], t[2])
     if o == "dl_children_names":
         return "io_children_names %s %s %s %s" % (t[1], t[2], t[3], t[4])
+    if o.startswith("dl2_"):
+        L = TRIPLES[int(t[1]) - 1]
+        a = t[2:]
+        pad = lambda k, h: hx(fassign(unhex(h), L[k]))
+        name = o[4:]
+        if name in ("conn_info", "1to1_read"):
+            return "%s %s %s %s %d %d" % (name, a[0], a[1], a[2], L[0], L[1])
+        if name in ("multifam_read", "descriptor_read", "io_get_link"):
+            return "%s %s %d %d" % (name, a[0], L[0], L[1])
+        if name == "link_read":
+            return "link_read %d %d" % (L[0], L[1])
+        if name == "io_file_version":
+            return "io_file_version %d %d %d" % L
+        if name == "geo_read":
+            return "geo_read %s %s %s %d %d %d" % (a[0], a[1], a[2], L[0], L[1], L[2])
+        if name in ("1to1_write", "conn_write_short"):
+            return "%s %s %s %s %s" % (name, a[0], a[1], pad(0, a[2]), pad(1, a[3]))
+        if name in ("multifam_write", "descriptor_write"):
+            return "%s %s %s" % (name, pad(0, a[0]), pad(1, a[1]))
+        if name == "subreg_bcname_write":
+            return "subreg_bcname_write %s %s %s %s %s" % (a[0], a[1], pad(0, a[3]), a[2], pad(1, a[4]))
+        if name == "link_write":
+            return "link_write %s %s %s" % (pad(0, a[0]), pad(1, a[1]), pad(2, a[2]))
+        if name == "io_create_link":
+            return "io_create_link %s %s %s %s" % (a[0], pad(0, a[1]), pad(1, a[2]), pad(2, a[3]))
+        if name == "io_new":
+            return "io_new %s %s %s %s %s" % (a[0], pad(0, a[2]), pad(1, a[3]), pad(2, a[4]), a[1])
+        if name == "geo_write":
+            return "geo_write %s %s %s %s %s" % (a[0], a[1], pad(0, a[2]), pad(1, a[3]), pad(2, a[4]))
     return l
 
 
@@ -265,7 +301,7 @@ def gen_modproc_script(rng, stats):
           "gotov 1 1 %s 1" % hx(b"Zone_t"), "gorelv 1 %s 1" % hx(b"DiscreteData_t"), "gridlocation_write 3", "gridlocation_read",
           "gotov 1 1 %s 1" % hx(b"Zone_t"), "gorelv 2 %s 1 %s 1" % (hx(b"GridCoordinates_t"), hx(b"DataArray_t   ")), "dataclass_write 2",
           "gotov 1 0", "dataclass_write 3", "dataclass_read",
-          "dl_goto 1 %d %s 1" % (rng.choice([8, 31, 32, 33, 40, 80]), hx(b"Zone_t")), "ndescriptors"]
+          "dl_goto 1 %d %s 1" % (rng.choice([8, 31, 32, 33, 40, 80]), hx(b"Zone_t")), "where", "ndescriptors"]
     for _ in range(2):
         s.append("dl_descriptor_write %d %s %s" % (dl(), nm(), hx(C20.rand_bytes(rng, rng.choice([0, 10, 79, 80, 81, 200]), 0.2))))
     s += ["descriptor_write %s %s" % (hx(b"D" + b"e" * rng.choice([6, 30, 31])), hx(C20.rand_bytes(rng, rng.choice([5, 79, 80]), 0.0))), "ndescriptors"]
@@ -304,6 +340,140 @@ def gen_dlio_script(rng, stats):
     return s
 
 
+def gen_goto_script(rng, stats):
+    """cg_goto_f / cg_gorel_f by NAME (index 0) and by label (index > 0) with names and labels drawn from TERM_FAMILY, on a
+    tree that HAS children with those names; after every move the position is observed (cg_where) and a marker descriptor is
+    written (its place shows in the file tree)."""
+    real = [n for n in TERM_FAMILY if n.strip(b" ") and not n.startswith(b" ") and n == n.rstrip(b" ")]
+    rng.shuffle(real)
+    at_base = real[:rng.randint(5, len(real))]
+    at_zone = [n for n in real if rng.random() < 0.6]
+    s = ["open w", "base %s 3 3" % hx(b"Base"), "zone %s 1 s 3" % hx(rng.choice([b"endzone", b"ENDZ", b"Z1"])), "zone %s 1 s 3" % hx(b"Z2"), "goto 1 end 0"]
+    s += ["user_data_write %s" % hx(n) for n in at_base]
+    s += ["goto 1 Zone_t 1"] + ["user_data_write %s" % hx(n) for n in at_zone]
+    if at_zone:
+        s += ["gorel UserDefinedData_t 1", "user_data_write %s" % hx(rng.choice(real)), "user_data_write %s" % hx(b"deep")]
+    s += ["close", "open m"]
+    mk = [0]
+
+    def observe():
+        mk[0] += 1
+        return ["where", "descriptor_write %s %s" % (hx(("Mk%d" % mk[0]).encode()), hx(b"m"))]
+    fam = list(TERM_FAMILY)
+    rng.shuffle(fam)
+    for lab in fam[:rng.randint(10, len(fam))]:
+        form = rng.choice(["base", "zone", "rel", "mid", "label", "rel2"])
+        if lab.rstrip(b" ") in (b"", b"end", b"END") and form in ("mid", "rel2"):
+            form = "zone" if form == "mid" else "rel"       # what follows a terminator is not part of the argument list
+        idx = 0 if form != "label" else rng.choice([1, 1, 2])
+        if form == "base":
+            s.append("gotov 1 1 %s %d" % (hx(lab), idx))
+        elif form == "zone":
+            s.append("gotov 1 2 %s 1 %s 0" % (hx(b"Zone_t"), hx(lab)))
+        elif form == "rel":
+            s += ["gotov 1 1 %s 1" % hx(b"Zone_t"), "gorelv 1 %s 0" % hx(lab)]
+        elif form == "rel2":
+            s += ["gotov 1 1 %s 1" % hx(b"Zone_t"), "gorelv 2 %s 0 %s 0" % (hx(lab), hx(b"deep"))]
+        elif form == "mid":
+            s.append("gotov 1 3 %s 1 %s 0 %s 1" % (hx(b"Zone_t"), hx(lab), hx(b"UserDefinedData_t")))
+        else:
+            s.append("gotov 1 1 %s %d" % (hx(lab), idx))
+        s += observe()
+    # plain `goto` / `gorel` operations of the C harness (single pair, label as a word): their SCRIPT SYNTAX reads any word
+    # that starts with end / END as "no pair" (c20_wrap.c), so only the other names of the family can be used with them
+    for lab in rng.sample([n for n in real if b" " not in n and n[:3] not in (b"end", b"END")], 2):
+        s += ["goto 1 %s 0" % lab.decode()] + observe() + ["goto 1 Zone_t 1", "gorel %s 0" % lab.decode()] + observe()
+    s += ["dl_goto 1 %d %s 0" % (rng.choice([8, 32, 80]), hx(rng.choice([b"endwall", b"END2", b"end", b"Wall"])))] + observe()
+    s += ["close"]
+    return s
+
+
+def gen_twofile_script(rng, stats):
+    """two files open at once: the position is in one, cg_gorel_f / cg_goto_f / node-context calls get the OTHER handle"""
+    s = ["open w", "base %s 3 3" % hx(b"BaseA"), "zone %s 1 s 3" % hx(b"ZA"), "sol_write 1 1 %s 2" % hx(b"SolA"),
+         "open2 w", "swap", "base %s 3 3" % hx(b"BaseB"), "zone %s 1 s 3" % hx(b"ZB"), "grid_write 1 1 %s" % hx(b"GridB"), "swap",
+         "gorelv 1 %s 1" % hx(b"Zone_t"), "where",                                   # no position yet
+         "gotov 1 1 %s 1" % hx(b"Zone_t"), "where", "descriptor_write %s %s" % (hx(b"MkA1"), hx(b"m")),
+         "swap",                                                                      # now fn = handle of B, position in A
+         "gorelv 1 %s 1" % hx(b"FlowSolution_t"), "where", "descriptor_write %s %s" % (hx(b"MkX"), hx(b"m")),
+         "gorelv 1 %s 0" % hx(rng.choice([b"..", b".", b"SolA"])), "where", "gorel FlowSolution_t 1", "where", "gorelv 0", "where",
+         "gotov 1 1 %s 1" % hx(b"Zone_t"), "where", "descriptor_write %s %s" % (hx(b"MkB1"), hx(b"m")),     # position in B
+         "swap", "gorelv 1 %s 1" % hx(b"GridCoordinates_t"), "where", "gorel GridCoordinates_t 2", "where", "descriptor_write %s %s" % (hx(b"MkY"), hx(b"m")),
+         "gotov 1 2 %s 1 %s 1" % (hx(b"Zone_t"), hx(b"FlowSolution_t")), "where", "swap", "gridlocation_read", "gorelv 1 %s 0" % hx(b".."), "where"]
+    if rng.random() < 0.5:
+        s += ["close2", "gorelv 1 %s 0" % hx(b"."), "where", "swap", "gorelv 1 %s 0" % hx(b"."), "where", "close"]
+    else:
+        s += ["swap", "close", "swap", "gorelv 1 %s 0" % hx(b"."), "where", "gotov 1 1 %s 1" % hx(b"Zone_t"), "gorelv 1 %s 1" % hx(b"GridCoordinates_t"), "where", "close"]
+    return s
+
+
+def gen_multichar_script(rng, stats):
+    """every routine with two or more CHARACTER arguments, with DIFFERENT lengths per argument in both orderings: declared
+    lengths (dl2_*, triples of TRIPLES and their mirror) and the plain operations with unequal substring lengths"""
+    g = C20.NameGen(rng)
+    T = lambda: rng.randint(1, 8)
+    nm = lambda mc=None: g.name(maxcore=mc)
+    two = lambda: rng.choice([(rng.choice([1, 8, 16]), rng.choice([32, 33, 40, 64])), (rng.choice([32, 33, 40, 64]), rng.choice([1, 8, 16]))])
+    s = ["open w", "base %s 3 3" % hx(b"Base"), "zone %s 1 s 3" % hx(b"Z1"), "zone %s 1 u 8" % hx(b"Z2"), "family_write 1 %s" % hx(b"Fam"),
+         "boco_write 1 1 %s 20 4" % hx(b"BC1")]
+    for _ in range(2):
+        t = T()
+        s += ["dl2_1to1_write %d 1 1 %s %s" % (t, nm(), hx(b"Z1")), "dl2_1to1_write %d 1 1 %s %s" % (MIRROR[t], nm(30), hx(b"Z1   "))]
+    t = T()
+    s += ["dl2_conn_write_short %d 1 1 %s %s" % (t, nm(), nm()), "dl2_conn_write_short %d 1 1 %s %s" % (MIRROR[t], nm(30), hx(b"Z2"))]
+    s += ["dl2_subreg_bcname_write %d 1 1 2 %s %s" % (T(), nm(30), hx(b"BC1")), "dl2_subreg_bcname_write %d 1 1 2 %s %s" % (T(), nm(), nm())]
+    t = T()
+    s += ["dl2_geo_write %d 1 1 %s %s %s" % (t, nm(30), g.name(force="plain"), g.name(force="plain", maxcore=32)),
+          "dl2_geo_write %d 1 1 %s %s %s" % (MIRROR[t], nm(), g.name(force="plain"), g.name(force="plain", maxcore=32))]
+    s += ["goto 1 Zone_t 1"]
+    for _ in range(2):
+        t = T()
+        s += ["dl2_descriptor_write %d %s %s" % (t, nm(), g.text()), "dl2_descriptor_write %d %s %s" % (MIRROR[t], nm(30), g.text())]
+    t = T()
+    s += ["dl2_multifam_write %d %s %s" % (t, nm(30), nm()), "dl2_multifam_write %d %s %s" % (MIRROR[t], nm(), hx(C20.rand_bytes(rng, 50, 0.0)))]
+    s += ["dl2_link_write %d %s %s %s" % (T(), g.name(force="plain", maxcore=20), "-", hx(b"/Base/Z2   ")),
+          "dl2_link_write %d %s %s %s" % (T(), g.name(force="plain", maxcore=20), hx(b"other.cgns "), hx(b"/Base/Z9"))]
+    s += ["close", "open m"]
+    for I in (1, 2, 3):
+        t = T()
+        s += ["dl2_1to1_read %d 1 1 %d" % (t, I), "dl2_1to1_read %d 1 1 %d" % (MIRROR[t], I), "1to1_read 1 1 %d %d %d" % ((I,) + two())]
+    for I in (1, 2):
+        t = T()
+        s += ["dl2_conn_info %d 1 1 %d" % (t, I), "dl2_conn_info %d 1 1 %d" % (MIRROR[t], I), "conn_info 1 1 %d %d %d" % ((I,) + two())]
+    for G in (1, 2):
+        t = T()
+        s += ["dl2_geo_read %d 1 1 %d" % (t, G), "dl2_geo_read %d 1 1 %d" % (MIRROR[t], G)]
+    s += ["goto 1 Zone_t 1"]
+    for D in (1, 2, 3):
+        t = T()
+        s += ["dl2_descriptor_read %d %d" % (t, D), "dl2_descriptor_read %d %d" % (MIRROR[t], D), "descriptor_read %d %d %d" % ((D,) + two())]
+    for N in (1, 2):
+        t = T()
+        s += ["dl2_multifam_read %d %d" % (t, N), "dl2_multifam_read %d %d" % (MIRROR[t], N), "multifam_read %d %d %d" % ((N,) + two())]
+    for k in (1, 2):
+        t = T()
+        s += ["goto 1 Zone_t 1", "gorel UserDefinedData_t %d" % k, "dl2_link_read %d" % t, "dl2_link_read %d" % MIRROR[t], "link_read %d %d" % two()]
+    s += ["close"]
+    # cgio level
+    s += ["io_open w 0"]
+    t = T()
+    s += ["dl2_io_new %d 0 5 %s %s %s" % (t, g.name(force="plain", maxcore=20), nm(), hx(b"I4")),
+          "dl2_io_new %d 0 7 %s %s %s" % (MIRROR[t], nm(), hx(b"Label_t"), hx(rng.choice([b"I4", b"I4 ", b"C1"]))),
+          "io_create 0 %s" % hx(b"kid")]
+    t = T()
+    s += ["dl2_io_create_link %d 0 %s %s %s" % (t, g.name(force="plain", maxcore=20), "-", hx(b"/kid   ")),
+          "dl2_io_create_link %d 0 %s %s %s" % (MIRROR[t], nm(), hx(b"elsewhere.cgns  "), hx(C20.rand_bytes(rng, rng.choice([5, 40, 300]), 0.0)))]
+    for i in (1, 2, 3, 4, 5):
+        t = T()
+        s += ["dl2_io_get_link %d %d" % (t, i), "dl2_io_get_link %d %d" % (MIRROR[t], i), "io_get_link %d %d %d" % ((i,) + two())]
+    t = T()
+    s += ["dl2_io_file_version %d" % t, "dl2_io_file_version %d" % MIRROR[t], "io_file_version %d %d %d" % (rng.choice([8, 40]), rng.choice([1, 33]), rng.choice([32, 5])),
+          "io_close"]
+    for k, v in g.stats["kind"].items():
+        stats["kind"][k] = stats["kind"].get(k, 0) + v
+    return s
+
+
 def c20_script(gen_name):
     """a scenario generator of checks/C20.py, unchanged (looked up at call time: C20.py imports this module)"""
     def f(rng, stats):
@@ -312,7 +482,8 @@ def c20_script(gen_name):
 
 
 GENERATORS = [("mll", c20_script("gen_mll_script")), ("cgio", c20_script("gen_cgio_script")),
-              ("modproc", gen_modproc_script), ("dlio", gen_dlio_script)]
+              ("modproc", gen_modproc_script), ("dlio", gen_dlio_script), ("goto", gen_goto_script), ("twofile", gen_twofile_script),
+              ("multichar", gen_multichar_script)]
 
 
 # ------------------------------------------------------------------------------------------------ three-way runs
@@ -324,7 +495,8 @@ def run_three(exes, script, work, tag, backend):
         d = os.path.join(work, "m" + mode)
         os.makedirs(d, exist_ok=True)
         n1, n2 = "%s_%s.cgns" % (tag, backend), "%s_%s_io.cgns" % (tag, backend)
-        for n in (n1, n2):
+        n3 = n1 + ".B"                                  # the second MLL file of open2
+        for n in (n1, n2, n3):
             if os.path.exists(os.path.join(d, n)):
                 os.unlink(os.path.join(d, n))
         if mode == "F":
@@ -332,7 +504,7 @@ def run_three(exes, script, work, tag, backend):
         else:
             lines, outcome = vlib.run_impl(exes["ref"], "\n".join(cscript) + "\n", args=[mode, n1, n2, backend], cwd=d, timeout=300)
         dumps = []
-        for n in (n1, n2):
+        for n in (n1, n2, n3):
             if os.path.exists(os.path.join(d, n)):
                 dlines, do = vlib.run_impl(exes["ref"], "", args=["dump", n], cwd=d)
                 dumps.append(list(dlines) + (["<dump outcome %s>" % do] if do != "ok" else []))
@@ -347,11 +519,49 @@ def _name_field(line, tag):
     return (m.group(1), m.group(2)) if m else None
 
 
-def known_divergence(op, F, ref):
-    """canonical keys of divergences listed as `known:` in KNOWN_FINDINGS.txt.  None: the defect found while building
-    this layer (C_F_string_chars / C_F_string_ptr left the last character of the caller's variable unblanked when the C
-    string is one shorter than the variable) was repaired in /repo (40e726e); its witness is corpus/C20f/
-    cf_string_last_char.script and a regression is an ordinary VIOLATION."""
+GOTO_KEY = "cg_ftoc.c:cg_goto_fc1+cg_gorel_fc1:path-terminator-test-differs-from-cg_goto"
+MOVE_OPS = ("gotov", "gorelv", "dl_goto")
+RESET_OPS = ("goto", "gotov", "dl_goto", "gopath", "open", "close", "open2", "close2")     # set the position anew / drop it
+
+
+def op_labels(op):
+    """the label / name strings of a go-to operation of the script, as the Fortran values (trailing blanks removed)"""
+    t = op.split()
+    unhex = lambda h: b"" if h == "-" else bytes.fromhex(h)
+    labs = []
+    try:
+        if t[0] == "dl_goto":
+            labs = [fassign(unhex(t[3]), int(t[2]))]
+        elif t[0] == "gotov":
+            labs = [unhex(x) for x in t[3::2][:int(t[2])]]
+        elif t[0] == "gorelv":
+            labs = [unhex(x) for x in t[2::2][:int(t[1])]]
+    except (IndexError, ValueError):
+        pass
+    return [l.rstrip(b" ") for l in labs]
+
+
+def terminator_like(l):
+    """a label on which `c_label[0][0]==' ' || !strncmp(c_label[0],"end",3) || !strncmp(c_label[0],"END",3)` (cg_goto_fc1,
+    cg_gorel_fc1) and `label==NULL || label[0]==0 || !strcmp("end",label) || !strcmp("END",label)` (cg_goto, cg_gorel) differ"""
+    fc1 = l[:1] == b" " or l[:3] in (b"end", b"END")
+    c = l == b"" or l in (b"end", b"END")
+    return fc1 != c
+
+
+def known_divergence(op, F, w, d, susp=False):
+    """canonical keys of divergences that are genuine defects handed to the lead (notes/C20f.md, notes/C20-fixes/).
+    F: Fortran program, w: C harness wrapper mode, d: direct C call.
+    (The C_F_string defect of cgns_f.F90 was repaired by 40e726e: a regression is an ordinary VIOLATION.)"""
+    t = (op or "").split()
+    if not t or F is None or w is None or d is None:
+        return None
+    # cg_goto_fc1 / cg_gorel_fc1 end the path on a PREFIX test and do not know the empty string: the Fortran program and the
+    # replay of what cg_goto_f does (wrapper mode) agree with each other and differ from cg_goto / cg_gorel -- on the go-to
+    # line itself (status) or on the first observation after it (cg_where, marker).  susp: a go-to since the position was
+    # last set anew had a label on which the two terminator tests differ
+    if susp and F == w and F != d:
+        return GOTO_KEY
     return None
 
 
@@ -376,21 +586,27 @@ def three_fails(exes, script, work, tag, backend, known_out=None):
     if Fo != "ok":
         return True, {"side": "Fortran program", "fortran_run_outcome": Fo, "after": Fl[-2:],
                       "next_op": script[len(Fl)] if len(Fl) < len(script) else None}
-    for i in range(max(len(Fl), len(fl), len(cl))):
+    tainted = seen_known = susp = False # after a KNOWN divergence of a go-to the position differs: what follows, up to the next
+    for i in range(max(len(Fl), len(fl), len(cl))):   # operation that sets the position anew, is a consequence, not a new failure
         F = norm(Fl[i]) if i < len(Fl) else None
         w = norm(fl[i]) if i < len(fl) else None
         d = norm(cl[i]) if i < len(cl) else None
-        if F == w == d:
-            continue
         op = script[i] if i < len(script) else None
-        if w == d:
-            key = known_divergence(op, F, d)
-            if key:
-                if known_out is not None:
-                    known_out.setdefault(key, {"backend": backend, "script": script[:i + 1], "op": op, "fortran": F, "reference": d})
-                continue
+        op0 = op.split()[0] if op else ""
+        if op0 in RESET_OPS:
+            tainted = susp = False
+        if op0 in MOVE_OPS and any(terminator_like(l) for l in op_labels(op)):
+            susp = True
+        if F == w == d or tainted:
+            continue
+        key = known_divergence(op, F, w, d, susp)
+        if key:
+            if known_out is not None:
+                known_out.setdefault(key, {"backend": backend, "script": script[:i + 1], "op": op, "fortran": F, "wrapper_mode": w, "reference": d})
+            tainted = seen_known = True
+            continue
         return True, {"line": i, "op": op, "c_op": cscript[i] if i < len(cscript) else None, "fortran": F, "wrapper_mode": w, "direct_mode": d}
-    for k in range(2):
+    for k in range(3 if not seen_known else 0):
         for a, b, what in ((Fd[k], cd[k], "fortran_vs_direct"), (fd[k], cd[k], "wrapper_vs_direct")):
             dv = vlib.first_divergence(a, b)
             if dv:
@@ -596,7 +812,7 @@ def run_extra(ck, standalone=False):
         three_fails(exes, small, ck.work, "shrinkk", wit["backend"], known_out=ko)
         w2 = ko.get(key, wit)
         ck.finding(key, {"level": "fortran", "backend": wit["backend"], "script": small,
-                         "detail": {k: w2[k] for k in ("op", "fortran", "reference")}, "oracle": ORACLE})
+                         "detail": {k: w2.get(k) for k in ("op", "fortran", "wrapper_mode", "reference")}, "oracle": ORACLE})
 
     # ---- verdict logic: an obligation broke without a failing input so far -> widen, then report
     if (broken or new_bad) and not hard:
@@ -669,7 +885,7 @@ def replay(ck, path):
         ko = {}
         fails, d = three_fails({"F": drv, "ref": ref}, r["script"], ck.work, "replay", r["backend"], known_out=ko)
         if ko and not fails:
-            fails, d = True, {k: {x: v[x] for x in ("op", "fortran", "reference")} for k, v in ko.items()}
+            fails, d = True, {k: {x: v.get(x) for x in ("op", "fortran", "wrapper_mode", "reference")} for k, v in ko.items()}
         print("replay: property C20 on this input: %s %s" % ("FAILS" if fails else "holds", json.dumps(d)))
         return 1 if fails else 0
     print("replay names a broken obligation / build problem, no input to run:", json.dumps(r)[:800])
